@@ -24,8 +24,7 @@ OUTCOME = {"succ": ("EXECUTE", "PERMIT"), "block": ("EXECUTE", "BLOCK"), "skip":
            # verdicts whose payload cannot be rendered (ActionProtein.payload is `Any`)
            "ufail": ("u:FAILURE", "PERMIT"), "ufail2": ("u:FAILURE", "DEFER"), "ublock": ("EXECUTE", "u:BLOCK"),
            "usucc": ("u:EXECUTE", "PERMIT"), "upermit": ("EXECUTE", "u:PERMIT"), "uskip": ("u:BLOCK", "PERMIT")}
-FINDING = "C08-unrenderable-payload-failure-uncounted"
-FINDING_CLAUSE = "executor_failure_with_unrenderable_payload_counts"
+UNRENDERABLE_CLAUSE = "executor_failure_with_unrenderable_payload_counts"   # (finding C08-unrenderable-payload-failure-uncounted: fixed)
 RAISED = ("exc", "excS")          # what the recorder reports for an agent that raised an Exception (renderable / not)
 HOOKS = ["none", "ok", "raise"]
 
@@ -65,7 +64,7 @@ class C08(Prop):
                     + ["set:thr", "set:tmo"])
     assumptions = [
         "agents return an ActionProtein with a str action_type (any payload: one that cannot be rendered is modelled - runP - "
-        "and is the trigger of the open finding C08-unrenderable-payload-failure-uncounted) or raise; they do not call back "
+        "and counts like any other since the fix: commit) or raise; they do not call back "
         "into the loop (a return value that is no ActionProtein makes run() raise outside its handler; not modelled)",
         "'executor failure' is a failure outcome unless the assessor votes BLOCK (intentional block) or, under OR logic, "
         "the assessor PERMITs (the request then passes and is a success): c08_executor_failure_outcome",
@@ -85,7 +84,6 @@ class C08(Prop):
 
     def setup(self, ctx):
         self.impl = cffl.Impl()
-        self._finding_only = {}
 
     def extract(self, ctx):
         return e2.extract() + py2lean_breaker.run(core.REPO, core.LEAN, core.write_if_changed)
@@ -383,10 +381,11 @@ class C08(Prop):
                 if no_reply and not agent_raised and (str(z).startswith("u:") or str(y).startswith("u:")):
                     # both agents answered, a payload could not be rendered and run() raised out of the gate.  By the text
                     # the outcome is what the VERDICTS say: an executor FAILURE nobody vetoed is a failure and must count
-                    # (open finding: the code records nothing); anything else must at least not count as a failure
+                    # (the defect of the repaired finding: the code recorded nothing); anything else must at least not
+                    # count as a failure
                     if vd(z) == "FAILURE" and vd(y) != "BLOCK" and not (gate == "or" and vd(y) == "PERMIT"):
                         if o.failures == p_fail and not (probing and o.state == "open"):
-                            V(FINDING_CLAUSE, f"failure counted (failures={p_fail + 1})", raw, idx)
+                            V(UNRENDERABLE_CLAUSE, f"failure counted (failures={p_fail + 1})", raw, idx)
                         else:
                             since_clear += 1
                             last_fail_at = now
@@ -442,15 +441,7 @@ class C08(Prop):
                                 V("successful_probe_closes_and_clears", "closed 0", raw, idx)
                             since_clear = 0
             prev = o
-        self._finding_only[tuple(case["lines"])] = bool(out) and all(v.clause == FINDING_CLAUSE for v in out)
         return out
-
-    def trigger(self, case):
-        """open finding C08-unrenderable-payload-failure-uncounted: a line scripts a verdict whose payload cannot be rendered
-        and the only violated clause is that an executor FAILURE on a request whose rendering failed was not counted"""
-        if any(" u:" in l for l in case["lines"]) and self._finding_only.get(tuple(case["lines"])):
-            return FINDING
-        return None
 
     def nontrivial(self, case, obs):
         return any((" open " in o or " half_open " in o) for o in obs)
